@@ -125,7 +125,7 @@ def main(argv):
       'verdict': verdict, 'states': states,
       'messages': [m.message[:600] for m in msgs if m.state.name != 'CONFIRMED'],
       'paths': rt.Stats.paths, 'completed': rt.Stats.completed,
-      'fails': rt.Stats.fails, 'errors': rt.Stats.errors,
+      'fails': rt.Stats.fails, 'errors': rt.Stats.errors, 'infra': rt.Stats.infra,
       'sigs': rt.Stats.sigs, 'samples': rt.Stats.samples,
       'queries': SolverStats.queries, 'solver_s': round(SolverStats.seconds, 3),
       'wall_s': round(time.time() - t0, 2),
